@@ -54,6 +54,7 @@ type x5Rd struct {
 	rev   bool
 	pos   int64
 	alive bool
+	got   bool
 }
 
 type x5Ctl struct {
@@ -293,6 +294,7 @@ type x5RdSt struct {
 	C     bool  `json:"c"`
 	Rev   bool  `json:"rev"`
 	Pos   int64 `json:"pos"`
+	Got   bool  `json:"got"`
 }
 
 type x5State struct {
@@ -414,7 +416,7 @@ func (c *x5Ctl) project() x5State {
 			st.Rd[n] = x5RdSt{}
 			continue
 		}
-		st.Rd[n] = x5RdSt{Alive: r.alive, C: r.c, Rev: r.rev, Pos: r.pos}
+		st.Rd[n] = x5RdSt{Alive: r.alive, C: r.c, Rev: r.rev, Pos: r.pos, Got: r.got}
 	}
 	st.Obs = c.obs
 	if st.Obs.Ret == nil {
@@ -600,6 +602,7 @@ func (c *x5Ctl) readNext(r *x5Rd) x5Obs {
 		}
 	}()
 	obs.Ret = append(obs.Ret, rec)
+	r.got = true
 	if r.rev {
 		r.pos = off - 1
 	} else {
